@@ -15,7 +15,14 @@ jobs = []
 for d in sorted(os.listdir(f"{V}/seeded")):
     m = re.match(r"(C\d\d)-[A-Z]$", d)
     if m and f"seeded/{d}".startswith(only):
-        jobs.append((f"seeded/{d}", f"{V}/seeded/{d}/patch.diff", [m.group(1)]))
+        ids = [m.group(1)]
+        try:
+            # a seed whose breakage surfaces under other properties as well (or, after later fixes of
+            # the library, only there) names them in meta.json
+            ids = json.load(open(f"{V}/seeded/{d}/meta.json")).get("checks", ids)
+        except Exception:
+            pass
+        jobs.append((f"seeded/{d}", f"{V}/seeded/{d}/patch.diff", ids))
     elif re.match(r"R\d\d-[A-Z]$", d) and f"seeded/{d}".startswith(only):
         # region-based seeds (round 4): the properties they break are listed in meta.json
         meta = json.load(open(f"{V}/seeded/{d}/meta.json"))
